@@ -30,7 +30,7 @@ namespace Nstd.Life
     `a.resize(n, a[i])`, `a.append(&a[i], n)`, `l.append(l)`, `l.insert(pos, l)`, `m.insert(k, *it)`,
     `s.append(s)`, `s.remove(s)`, copy construction, swap ...), followed by the destructors of all variables,
     the complete event log (from the construction of the variables on) is accepted by the checker:
-    per slot the events match (construct (assign | read)* destroy)*, every source of a copy or assignment
+    per slot the events match (construct assign* destroy)*, every source of a copy or assignment
     is a live object, objects are constructed only inside allocated blocks, no block id is allocated twice,
     a block is freed only while allocated and with no live object inside, and at the end nothing is live
     and no block is allocated (no leak, no double free, no use after destruction). -/
@@ -61,6 +61,22 @@ theorem exactly_once (p : Per) (ops : List Op) :
     constructor
     · rw [this.2]; split <;> omega
     · exact this.1
+
+/-- C04 `linked_objects_live`.  "Never touched after its destruction", the part the event log cannot express: the log has
+    no event for the key comparisons, hashing and `==` walks of find / insert / remove (they depend on the tree shape and the
+    bucket chains, which this model abstracts).  What the model does establish: in every reachable state every object
+    reachable through a container - each member object of each linked item, each array element below `size`, each
+    sentinel object - is live, and conversely every live object is one of these (`SInv.live_owned`); so lookup code that
+    dereferences only linked items and the caller's arguments touches live objects only.  That the real lookup code
+    touches nothing else is checked by the harness ledger (counter `u`: any comparison, hash or copy that touches a
+    destroyed object), not by a theorem. -/
+theorem linked_objects_live (p : Per) (ops : List Op) :
+    (∀ c it f, it ∈ ((run (init p) ops).nodes c).items → f ∈ c.k.fields → ((run (init p) ops).mem (it.loc f)).isSome = true) ∧
+    (∀ a s i, ((run (init p) ops).arrs a).store = some s → i < ((run (init p) ops).arrs a).size →
+        ((run (init p) ops).mem (.heap s i 1)).isSome = true) ∧
+    (∀ c f, ((run (init p) ops).nodes c).alive = true → f ∈ c.k.sentFields → ((run (init p) ops).mem (.sent c f)).isSome = true) ∧
+    (∀ l, ((run (init p) ops).mem l).isSome = true → LiveLoc (run (init p) ops) l) :=
+  ⟨(reach_ok p ops).1.items_live, (reach_ok p ops).1.elems_live, (reach_ok p ops).1.sent_live, (reach_ok p ops).1.live_owned⟩
 
 /-- C04 `no_fault`.  In every reachable state every operation is either rejected by its guard (`bad-op`:
     index outside the container, unknown variable - the harness refuses the same lines) or executes all its
